@@ -86,6 +86,7 @@ theorem sum_allPositions (F : Nat → Nat → Nat) (D : List Nat) (hD : D.length
   rw [drop_eq_map_range', hD]
   simp only [List.map_map, Function.comp_def]
   congr 3
+  omega
 
 theorem positionsBetween_full : positionsBetween (0, 1) (48, 49) = allPositions := by
   unfold positionsBetween
